@@ -1,0 +1,9 @@
+//go:build verif
+
+package validate
+
+// Contracts for the govc verifier (/verif). Comment-only file: it contains no
+// executable code and is compiled only with the build tag `verif`.
+
+// Literal typing must not panic on any value a decoder can produce.
+//@ sweep C16 typechecker.go +Validator.typeOfValue
